@@ -121,6 +121,24 @@ pub fn spec_rc_bits<K: KV>(x: &K) -> u128 {
     out
 }
 
+/// storage bits of `extend(b, dir)`, built lane by lane from the definition
+pub fn spec_extend_bits<K: KV>(x: &K, b: u8, right: bool) -> u128 {
+    let mut out: u128 = 0;
+    let mut i = 0;
+    while i < K::KK {
+        let v = if right {
+            if i == K::KK - 1 { b } else { lane(x, i + 1) }
+        } else if i == 0 {
+            b
+        } else {
+            lane(x, i - 1)
+        };
+        out |= (v as u128) << (2 * (K::KK - 1 - i));
+        i += 1;
+    }
+    out
+}
+
 /// lexicographic comparison of the two K-letter strings (A<C<G<T)
 pub fn spec_cmp<K: KV>(a: u128, b: u128) -> Ordering {
     let mut i = 0;
